@@ -16,6 +16,11 @@ def check(ctx: Ctx) -> None:
                       "list; stop_all == stop(self.num_running). Unrecognised ways of computing the prefix are inconclusive")
     from .shared import r_counters
     r_counters(ctx, "R14.4", ("num_running",))
+    # "the n most recently started tasks that are still running" are read off the running registry: a task that has observed its
+    # cancellation leaves that registry before any suspension / user code (life-cycle typestate, `cancel` facet)
+    from .lifecycle import check_lifecycle
+    rep.rule("R14.5", "a cancelled task is moved out of the running registry before its cancel callback runs (else a second stop() selects it again)")
+    check_lifecycle(ctx, "R14.5", {"cancel"})
     for f in ctx.pool_funcs("stop"):
         sc = ctx.an.scope(f)
         g = ctx.an.cfg(f)
